@@ -277,9 +277,14 @@ def r4_gosub_pairing(ctx, rule="C05.R4"):
         ok_arms = set(regions.get("GoSub", ())) | set(regions.get("Return", ()))
         if callers and all(cf == one.id and cb in ok_arms for cf, cb in callers):
             continue
+        # discarding the addresses of calls that have ended (cutting back to a depth PushRet recorded)
+        # takes nothing away from the running call
+        if f is not None and _only_truncates_to_recorded_depth(
+                prog, f, None, "go_sub_address_stack", _recorded_depth_index(prog, one, regions, "go_sub_address_stack")):
+            continue
         outside.append(fid)
     ctx.decide(not outside, rule, rule + ":owner", one.loc,
-               "outside the GoSub / Return arms (and their helpers) go_sub_address_stack is only read",
+               "outside the GoSub / Return arms (and their helpers) go_sub_address_stack is only read, or cut back to a recorded depth",
                "go_sub_address_stack is also changed by %s" % outside)
     # GOSUB / RETURN pair up inside one procedure call ("the most recent GOSUB not yet returned from"
     # cannot be one of a caller, or of a call that has ended): PopRet cuts the stack back to the depth
@@ -337,30 +342,9 @@ def _call_sites_of(prog, fid):
     return out
 
 
-def _truncates_to_recorded_depth(prog, one, regions, field):
-    """In the PopRet arm `field.truncate(n)`: n is a component of the entry popped from
-    return_address_stack, and the PushRet arm fills that component with `field.len()`."""
+def _recorded_depth_index(prog, one, regions, field):
+    """index of the component of a return_address_stack entry that PushRet fills with `field.len()`"""
     pv = mir.Prov(one.body)
-    idx = None
-    for b, t in mir.region_calls(one.body, regions.get("PopRet", ())):
-        if mir.callee_path(t).split("::")[-1] != "truncate" or len(t["args"]) < 2:
-            continue
-        o = mir.strip_refs(pv.of_operand(t["args"][0]))
-        if not (o[0] == "field" and o[2] == field):
-            continue
-        n = mir.strip_refs(pv.of_operand(t["args"][1]))
-        # a tuple component of the popped entry
-        if n[0] == "field" and mir.origin_mentions(n[1], lambda x: x[0] == "field" and len(x) > 2
-                                                    and x[2] == "return_address_stack"):
-            try:
-                idx = int(n[2])
-            except (TypeError, ValueError):
-                return False
-        else:
-            return False
-    if idx is None:
-        return False
-    # PushRet: the tuple pushed on return_address_stack has field.len() at that index
     for b, t in mir.region_calls(one.body, regions.get("PushRet", ())):
         if mir.callee_path(t).split("::")[-1] != "push" or len(t["args"]) < 2:
             continue
@@ -368,12 +352,47 @@ def _truncates_to_recorded_depth(prog, one, regions, field):
         if not (o[0] == "field" and o[2] == "return_address_stack"):
             continue
         v = mir.strip_refs(pv.of_operand(t["args"][1]))
-        if v[0] == "agg" and idx < len(v[3]):
-            c = mir.strip_refs(v[3][idx])
-            if c[0] == "call" and c[1].split("::")[-1] == "len" and c[2]:
-                r = mir.strip_refs(c[2][0])
-                return r[0] == "field" and r[2] == field
-    return False
+        if v[0] == "agg":
+            for idx, c in enumerate(v[3]):
+                c = mir.strip_refs(c)
+                if c[0] == "call" and c[1].split("::")[-1] == "len" and c[2]:
+                    r = mir.strip_refs(c[2][0])
+                    if r[0] == "field" and r[2] == field:
+                        return idx
+    return None
+
+
+def _only_truncates_to_recorded_depth(prog, fn, region, field, idx):
+    """every change of `field` in fn (or the region of it) is `field.truncate(n)` with n the idx-th
+    component of an entry of return_address_stack"""
+    if idx is None:
+        return False
+    body = fn.body
+    pv = mir.Prov(body)
+    seen = 0
+    MUT = ("push", "pop", "insert", "remove", "clear", "truncate", "drain", "swap_remove", "retain", "append")
+    for b, t in (mir.region_calls(body, region) if region is not None else body.calls()):
+        if not t["args"]:
+            continue
+        o = mir.strip_refs(pv.of_operand(t["args"][0]))
+        if not (o[0] == "field" and o[2] == field):
+            continue
+        name = mir.callee_path(t).split("::")[-1]
+        if name not in MUT:
+            continue
+        if name != "truncate" or len(t["args"]) < 2:
+            return False
+        n = mir.strip_refs(pv.of_operand(t["args"][1]))
+        if not (n[0] == "field" and str(n[2]) == str(idx) and mir.origin_mentions(
+                n[1], lambda x: x[0] == "field" and len(x) > 2 and x[2] == "return_address_stack")):
+            return False
+        seen += 1
+    return seen > 0
+
+
+def _truncates_to_recorded_depth(prog, one, regions, field):
+    return _only_truncates_to_recorded_depth(prog, one, regions.get("PopRet", ()), field,
+                                             _recorded_depth_index(prog, one, regions, field))
 
 
 def _pop_is_guarded_by_depth(prog, one, region, field, depth_holder):
@@ -926,6 +945,57 @@ def r10_no_handler_reentry(ctx, rule="C05.R10"):
     ctx.require(rule, 1)
 
 
+def r11_resume_label_abandons_active_calls(ctx, rule="C05.R11"):
+    """`RESUME label continues at the label ... leaving every variable as the handler left it`: the label
+    of RESUME is a label of the main module (C05.R8 / the label tables), so when the error was raised
+    inside SUB / FUNCTION calls those calls are over once the program continues at the label: the
+    ResumeLabel arm (or a helper it calls) must drop their return addresses, their call sites in the stack
+    trace and - iterating - their contexts.  Otherwise the main module goes on with the procedure's
+    variables in scope and a later error lists calls that are no longer active."""
+    prog = ctx.prog
+    one = ctx.anchor_method("Interpreter", "interpret_one")
+    sw, regions = _arm_regions(prog, one, "::Instruction")
+    if "ResumeLabel" not in regions:
+        raise CheckError("interpret_one has no arm for Instruction::ResumeLabel")
+    region = regions["ResumeLabel"]
+    for field, what in (("return_address_stack", "the return addresses of the abandoned calls"),
+                        ("stacktrace", "the call sites of the abandoned calls")):
+        hit = _shrinks_field(prog, one, region, field)
+        ctx.decide(bool(hit), rule, "%s:drops:%s" % (rule, field), one.loc, "ResumeLabel: %s" % hit,
+                   "the ResumeLabel arm leaves %s in place (%s is not shrunk): after `RESUME label` out of a SUB the "
+                   "main module runs on with the SUB still `active`" % (what, field))
+    # the contexts: a Context routine that pops states in a loop
+    direct, shrinking = common.fns_shrinking_field(prog, "states")
+
+    def iterated(fid, seen=()):
+        f = prog.fns.get(fid)
+        if f is None or f.body is None or fid in seen:
+            return False
+        for b, t in f.body.calls():
+            c = mir.callee_of(t)
+            is_shrink = c in shrinking or c in direct or (
+                mir.callee_path(t).split("::")[-1] in common.VEC_SHRINK and
+                common.receiver_field(mir.Prov(f.body), t) == "states")
+            if is_shrink:
+                if b in {x for s2 in f.body.succ(b) for x in f.body.reachable(s2)}:
+                    return True
+                if iterated(c, seen + (fid,)):
+                    return True
+        return False
+    calls = set()
+    for _b, t in mir.region_calls(one.body, region):
+        c = t.get("res") or mir.callee_of(t)
+        calls.add(c)
+        g = prog.fns.get(c)
+        if g is not None and g.file == one.file and g.body is not None:
+            calls |= {t2.get("res") or mir.callee_of(t2) for _b2, t2 in g.body.calls()}
+    ok = any(iterated(c) for c in calls if c in shrinking or c in direct)
+    ctx.decide(ok, rule, rule + ":drops:contexts", one.loc, "a Context routine pops states until the main module's is on top",
+               "the ResumeLabel arm pops one context (the handler's) and nothing that pops contexts in a loop: after "
+               "`RESUME label` out of a SUB the main module reads and writes the SUB's variables")
+    ctx.require(rule, 3)
+
+
 def run(ctx):
     common.install(ctx)
     r1_error_codes(ctx)
@@ -939,3 +1009,4 @@ def run(ctx):
     labels.r_label_tables(ctx, "C05.R8")
     r9_every_emitting_statement_is_marked(ctx)
     r10_no_handler_reentry(ctx)
+    r11_resume_label_abandons_active_calls(ctx)
